@@ -369,7 +369,7 @@ def run(ctx, report):
     from .c12 import state_copy_rule
     state_copy_rule(R14c, [ctx.mod('eval_abs')])
 
-    R17 = report.rule('C07.D17', 'the symbolic machine interpreted from its source on 26 instruction histories (stores that cover, split or abut earlier stores, reads between stores, the '
+    R17 = report.rule('C07.D17', 'the symbolic machine interpreted from its source on 28 instruction histories (stores that cover, split or abut earlier stores, reads between stores, the '
                       'same address at two widths, parallel assignments inside one instruction, an address register updated between store and read): registers and probed cells after the '
                       'history, valued on three initial states, equal the concrete byte-level execution of the same history (shared with C06.D16)', floor=20)
     from .. import machine as _machine
@@ -896,10 +896,16 @@ def overlap_search_rule(R, ea, methods):
     n = 0
     for h in hosts:
         for loop in walk_no_nested(h):
-            if not (isinstance(loop, ast.For) and isinstance(loop.iter, ast.Name) and any(isinstance(x, ast.Call) and u(x.func) == 'self.substract_mems' for x in ast.walk(loop))):
+            if not (isinstance(loop, ast.For) and any(isinstance(x, ast.Call) and u(x.func) == 'self.substract_mems' for x in ast.walk(loop))):
                 continue
             if any(isinstance(in_, ast.For) and in_ is not loop and any(isinstance(x, ast.Call) and u(x.func) == 'self.substract_mems' for x in ast.walk(in_)) for in_ in ast.walk(loop)):
                 continue            # an outer loop (over the stores of the instruction): the per-cell loop is inside
+            if isinstance(loop.iter, ast.Call) and u(loop.iter.func) == 'self.get_mem_overlapping':
+                n += 1              # `for off, x in self.get_mem_overlapping(op):` - the loop runs over the search itself
+                R.ok('%s: %s' % (h.name, norm(loop.iter)[:60]), sample='%s: the per-cell loop iterates over get_mem_overlapping directly' % h.name, nontrivial=True)
+                continue
+            if not isinstance(loop.iter, ast.Name):
+                continue
             lst = loop.iter.id
             for a in walk_no_nested(h):
                 if not (isinstance(a, ast.Assign) and len(a.targets) == 1 and u(a.targets[0]) == lst):
@@ -928,7 +934,9 @@ def overlap_search_rule(R, ea, methods):
                         continue
                 raise AnalysisError('%s: the list of overlapped cells is bound by `%s`, a form the overlap rule does not model' % (h.name, norm(a)[:80]))
     if not n:
-        raise AnalysisError('eval_instr: the loop that subtracts a store from the overlapped cells was not found')
+        # the store path is written in a way this structural clause does not read: the interpreted histories of C07.D17 (store over store, same address at two widths) decide
+        R.note('eval_instr: no per-cell loop over a named list of overlapped cells was found: the structural clause is skipped, C07.D17 decides the stores on the interpreted histories')
+        R.ok('overlap-search: decided by C07.D17', nontrivial=False)
 
 MUTANTS = [
     ('store-fast-path-narrower-cell', 'miasmx/expression/expression_eval_abstract.py', "                ov = self.get_mem_overlapping(op)\n", "                old = self.find_mem_by_addr(op.arg)\n                if old is not None and old.size <= op.size:\n                    ov = []\n                else:\n                    ov = self.get_mem_overlapping(op)\n", 'C07.D16'),
